@@ -216,6 +216,10 @@ class Input(ContextManager["Input"]):
                     signal_number = ord(os.read(r, 1))
                     if signal_number == signal.SIGINT:
                         raise InterruptedError()
+                    elif timeout is not None:
+                        # some other signal (e.g. SIGWINCH): keep waiting, but
+                        # only for what is left of the timeout
+                        remaining_timeout = max(0, t0 + timeout - time.time())
                 else:
                     os.read(r, 1024)
                     if self.queued_interrupting_events:
